@@ -52,7 +52,7 @@ class Pipeline(Component):
         return pipeline_case(tier)
 
     def check(self, case, ctx):
-        L, R = canon.build_table(case["L"]), canon.build_table(case["R"])
+        L, R = canon.build_pair(case)
         m = case["measure"]
         ed = m == "EDIT_DISTANCE"
         jdf = calls.run_join(ctx, case, L, R, mk_tok(case["tok"]))
